@@ -5,6 +5,7 @@ import itertools
 import json
 import os
 import re
+from tables import read_src as _read_src
 import struct
 import sys
 
@@ -547,7 +548,7 @@ def surrogate_docs(ctx):
 # ---------------------------------------------------------------------------------------------------
 
 def read_max_depth():
-    src = open(REPO + '/humphrey-json/src/parser.rs', encoding='utf-8').read()
+    src = _read_src(REPO + '/humphrey-json/src/parser.rs')
     return int(re.search(r'const\s+MAX_DEPTH\s*:\s*usize\s*=\s*([0-9_]+)', src).group(1).replace('_', ''))
 
 
